@@ -69,13 +69,16 @@ contract(
     requires=[],
     # copies attributes (not modelled); nothing of the modelled tree changes
     ensures=["node.parent == old(node.parent)", "node.kind == old(node.kind)", "node.line == old(node.line)",
-             # (a warning node is appended only for a failing converter; these call sites pass none - `converters` is typed None)
-             "node.children == old(node.children)"],
+             # (a warning node is appended for a failing converter - these call sites pass none, `converters` is typed None -
+             #  and docutils appends a message to `node` when an id attribute clashes with a registered name)
+             "node.children[: len(old(node.children))] == old(node.children)",
+             # only the new message nodes get a parent
+             "forall_obj('Element', lambda e: implies(old(allocated(e)), e.parent == old(e.parent)))"],
     types={"token": "SyntaxTreeNode", "node": "Element", "keys": "tuple[str, ...]", "converters": "None"},
     raises={}, modifies=["node.children", "Document.log", "fresh", "Element.parent"], trusted=True,
 )
-assumed("DocutilsRenderer.copy_attributes", "copies class / id / other attributes (not modelled); without converters (all call sites under "
-        "contract) it appends nothing and changes no parent", "myst_parser")
+assumed("DocutilsRenderer.copy_attributes", "copies class / id / other attributes (not modelled); it only ever appends to the node's children "
+        "(a message on an id clash or a failing converter) and changes no parent", "myst_parser")
 
 # G' (contracts/assumed_docutils.py) for the dynamic dispatch over the children, plus the ghost that records where it ran
 contract(
